@@ -228,7 +228,11 @@ class VizierServicer(vizier_service_pb2_grpc.VizierServiceServicer):
       context: Optional[grpc.ServicerContext] = None,
   ) -> empty_pb2.Empty:
     """Deletes a Study."""
-    self.datastore.delete_study(request.name)
+    # Don't delete the study under a running SuggestTrials / early stopping
+    # computation or in the middle of a read-modify-write of its trials.
+    with self._operation_lock[request.name]:
+      with self._study_name_to_lock[request.name]:
+        self.datastore.delete_study(request.name)
     return empty_pb2.Empty()
 
   def SetStudyState(
